@@ -553,10 +553,12 @@ class NodeMechanicActor(actor.RallyActor):
         super().__init__()
         self.mechanic = None
         self.host = None
+        self.reply_to = None
 
     def receiveMsg_StartNodes(self, msg, sender):
         try:
             self.host = msg.ip
+            self.reply_to = getattr(msg, "reply_to", sender)
             if msg.external:
                 self.logger.info("Connecting to externally provisioned nodes on [%s].", msg.ip)
             else:
@@ -612,7 +614,11 @@ class NodeMechanicActor(actor.RallyActor):
             self.send(sender, actor.BenchmarkFailure(msg.details))
 
     def receiveMsg_BenchmarkFailure(self, msg, sender):
-        self.send(getattr(msg, "reply_to", sender), msg)
+        self.send(self._failure_target(msg, sender), msg)
+
+    def _failure_target(self, msg, sender):
+        # a failure while we handle one of our own wake-ups (no reply_to, sent by ourselves) must be reported to whoever started us
+        return getattr(msg, "reply_to", None) or self.reply_to or sender
 
     def receiveUnrecognizedMessage(self, msg, sender):
         # at the moment, we implement all message handling blocking. This is not ideal but simple to get started with. Besides, the caller
@@ -635,7 +641,7 @@ class NodeMechanicActor(actor.RallyActor):
                     self.mechanic = None
         except BaseException as e:
             self.logger.exception("Cannot process message [%s]", msg)
-            self.send(getattr(msg, "reply_to", sender), actor.BenchmarkFailure("Error on host %s" % str(self.host), e))
+            self.send(self._failure_target(msg, sender), actor.BenchmarkFailure("Error on host %s" % str(self.host), e))
 
 
 #####################################################
